@@ -25,7 +25,7 @@ SYM = {0: '.', 1: '', 2: '=', 3: '#'}
 
 def budget(tier):
     if tier == 'thorough':
-        return dict(examples=1200, shards=16, procs=16)
+        return dict(examples=4000, shards=16, procs=16)
     return dict(examples=600, shards=4, procs=4)
 
 
